@@ -37,6 +37,11 @@ def plan(tier, seed):
                 if dt == "float32":
                     tasks.append({"kind": "hist", "dt": dt, "w": w, "a": a, "tier": tier, "mk": "linear"})
                     tasks.append({"kind": "hist", "dt": dt, "w": w, "a": a, "tier": tier, "mk": "conv"})
+                    if w in ("qint8", "qfloat8_e4m3fn", "qint4"):
+                        for mk in ("linear", "conv"):
+                            tasks.append({"kind": "ladder", "dt": dt, "w": w, "a": a, "mk": mk, "steps": [1, 3, 48] if tier == "quick" else [1, 2, 17, 33, 48, 100, 300], "rows": [40000] if tier == "quick" else [40000, 70001, 140003]})
+                        tasks.append({"kind": "hist", "dt": dt, "w": w, "a": a, "tier": tier, "mk": "linear", "long": 60 if tier == "quick" else 200})
+                        tasks.append({"kind": "hist", "dt": dt, "w": w, "a": a, "tier": tier, "mk": "conv", "long": 60 if tier == "quick" else 200})
     return tasks
 
 
@@ -224,6 +229,101 @@ def _jac_task(task, out):
                         out["violations"].append(violation(PID, case, dict(fields, sub=m.split(":")[0]), f"{m} ({c} w={wname} a={aname} {dtname})"))
 
 
+def _ladder_task(task, out):
+    """Depth ladder of the autograd graph (one module applied T times - time steps / micro-batches - before a single backward)
+    and size ladder (inputs that flatten to more than 2^15 / 2^16 rows, not a multiple of any power-of-two block)."""
+    from optimum.quanto import QBytesTensor, quantize_activation
+
+    dtname, wname, aname, mk = task["dt"], task["w"], task["a"], task["mk"]
+    dt = num.DTYPES[dtname]
+    u = num.UNIT[dtname]
+    only = task.get("only")
+
+    def twin(qm, fm, xs, gs):
+        with torch.no_grad():
+            wdq = qm.qweight.dequantize().detach().clone()
+        w_leaf = wdq.requires_grad_(True)
+        b_leaf = qm.bias.detach().clone().requires_grad_(True)
+        leaves = []
+        total = 0
+        for x, g in zip(xs, gs):
+            xl = x.clone().requires_grad_(True)
+            leaves.append(xl)
+            if aname:
+                with torch.no_grad():
+                    xq = quantize_activation(xl.detach(), num.qt(aname), qm.input_scale).dequantize()
+                xin = xl + (xq - xl).detach()
+            else:
+                xin = xl
+            y = F.linear(xin, w_leaf, b_leaf) if mk == "linear" else F.conv2d(xin, w_leaf, b_leaf, fm.stride, fm.padding, fm.dilation, fm.groups)
+            total = total + (y * g).sum()
+        total.backward()
+        return w_leaf.grad, b_leaf.grad, [l.grad for l in leaves]
+
+    def run(label, xs, gs, exact):
+        c = [label]
+        if only and only != c:
+            return
+        fm = _mk_linear(dt, True) if mk == "linear" else _mk_conv(dt, True)
+        qm = _quantize_single(fm, wname, aname)
+        if aname:
+            amax = max(float(x.abs().max()) for x in xs)
+            qm.input_scale = torch.tensor(amax * 0.9 / num.float8.QMAX[aname], dtype=dt)
+            with torch.no_grad():
+                ymax = max(float(fm(x).abs().max()) for x in xs[:4])
+            qm.output_scale = torch.tensor(ymax * 1.5 / num.float8.QMAX[aname], dtype=dt)
+        fields = {"kind": "ladder", "weights": wname, "activations": aname, "dtype": dtname, "module": mk, "ladder": label.split(":")[0]}
+        case = dict(task, only=c)
+        journal(repr(case))
+        out["evals"] += 1
+        out["calls"] += len(xs)
+        out["points"] += 1
+        out["nontrivial"] += 1
+        try:
+            wg, bg, xg = twin(qm, fm, xs, gs)
+        except Exception:
+            out["counters"]["twin_backward_unsupported"] = out["counters"].get("twin_backward_unsupported", 0) + 1
+            return
+        try:
+            leaves = [x.clone().requires_grad_(True) for x in xs]
+            total = 0
+            for xl, g in zip(leaves, gs):
+                y = qm(xl)
+                yd = y.dequantize() if isinstance(y, QBytesTensor) else y
+                total = total + (yd * g).sum()
+            total.backward()
+        except Exception as e:  # noqa
+            out["violations"].append(violation(PID, case, dict(fields, sub="backward_raised"), f"backward_raised: {label} w={wname} a={aname}: {type(e).__name__}: {str(e)[:200]}"))
+            return
+        rows = sum(x.numel() for x in xs) // (fm.weight.numel() // fm.weight.shape[0])
+        msgs = [_cmp(qm.weight.grad, wg, exact, rows, u, "grad_weight"), _cmp(qm.bias.grad, bg, exact, rows, u, "grad_bias")]
+        for i, (a, b) in enumerate(zip(leaves, xg)):
+            m = _cmp(a.grad, b, exact, fm.weight.shape[0], u, f"grad_input[{i}]")
+            if m:
+                msgs.append(m)
+                break
+        for m in msgs:
+            if m:
+                out["violations"].append(violation(PID, case, dict(fields, sub=m.split(":")[0].split("[")[0]), f"{m} ({label} w={wname} a={aname} {dtname})"))
+
+    xshape = (2, 6) if mk == "linear" else (1, 2, 3, 3)
+    for T in task["steps"]:
+        xs = [_input(xshape, dt, k) for k in range(T)]
+        with torch.no_grad():
+            oshape = tuple((_mk_linear(dt) if mk == "linear" else _mk_conv(dt))(xs[0]).shape)
+        gs = [_input(oshape, dt, 100 + k) for k in range(T)]
+        run(f"steps:{T}", xs, gs, False)
+    if mk == "linear":
+        for rows in task["rows"]:
+            x = _input((rows, 6), dt, 3)
+            g1 = torch.zeros((rows, 4), dtype=dt)
+            g1[-1, 1] = 1.0  # only the last row contributes: every weight-gradient entry is a single product
+            run(f"rows:{rows}:last", [x], [g1], True)
+            run(f"rows:{rows}:all", [x], [_input((rows, 4), dt, 9)], False)
+            x3 = _input((5, rows // 5 + 1, 6), dt, 4)
+            run(f"rows3d:{rows}", [x3], [_input((5, rows // 5 + 1, 4), dt, 7)], False)
+
+
 # ---------------------------------------------------------------------------------------
 # histories
 # ---------------------------------------------------------------------------------------
@@ -309,8 +409,6 @@ def _hist_task(task, out):
     only = task.get("only")
 
     def on_transition(hist, ev, st):
-        if only is not None and (hist != only[0] or ev != only[1]):
-            return _h_apply(st, ev) if len(hist) < len(only[0]) else None
         case = dict(task, only=[hist, ev])
         fields = {"kind": "hist", "weights": cfg["w"], "activations": cfg["a"], "module": cfg["mk"], "event": ev}
         journal(repr(case))
@@ -333,12 +431,26 @@ def _hist_task(task, out):
             out["violations"].append(violation(PID, case, dict(fields, sub="frozen_weight_grad"), f"frozen_weight_grad: frozen weight holds a gradient after {hist + [ev]} ({cfg})"))
         return st
 
-    res = lifecycle.bfs_local(lambda: HSt(cfg), lambda st: EVENTS, _h_apply, _h_key, on_transition, depth, max_states=4000)
+    on_transition.apply = _h_apply
+    if only is not None:
+        # replay exactly one transition
+        st = HSt(cfg)
+        for e in only[0]:
+            st = _h_apply(st, e)
+        on_transition(list(only[0]), only[1], st)
+        return
+    if task.get("long"):
+        # depth ladder: fixed long histories (many optimizer steps / forwards / freezes in a row)
+        res = lifecycle.long_paths(lambda: HSt(cfg), lambda st: EVENTS, on_transition, task["long"], 3 if task["tier"] == "quick" else 6)
+        out["counters"]["long_steps"] = res["long_steps"]
+    else:
+        res = lifecycle.bfs_local(lambda: HSt(cfg), lambda st: EVENTS, _h_apply, _h_key, on_transition, depth, max_states=4000)
     out["evals"] += res["transitions"]
     out["calls"] += res["transitions"]
     out["points"] += res["states"]
-    out["counters"]["hist_states"] = res["states"]
-    out["counters"]["hist_saturated"] = int(res["frontier_emptied"])
+    if not task.get("long"):
+        out["counters"]["hist_states"] = res["states"]
+        out["counters"]["hist_saturated"] = int(res["frontier_emptied"])
     if cfg == {"dt": "float32", "w": "qint8", "a": "qint8", "mk": "linear"}:
         out["samples"] += [{"config": cfg, "history": h} for h in res["samples"]]
 
@@ -347,6 +459,8 @@ def _run(task):
     out = {"evals": 0, "nontrivial": 0, "points": 0, "calls": 0, "violations": [], "samples": [], "counters": {}}
     if task["kind"] == "hist":
         _hist_task(task, out)
+    elif task["kind"] == "ladder":
+        _ladder_task(task, out)
     else:
         _jac_task(task, out)
     return out
@@ -376,7 +490,7 @@ def replay_task(case):
 def coverage(agg, tier, tasks):
     from ..pool import HarnessError
 
-    for k in ("jac_linear_cases", "jac_conv_cases", "hist_cases"):
+    for k in ("jac_linear_cases", "jac_conv_cases", "hist_cases", "ladder_cases"):
         if agg.counters.get(k, 0) == 0:
             raise HarnessError(f"vacuity guard: {k} == 0")
     return {
